@@ -112,7 +112,8 @@ class Universe:
 
 
 def gen_history(u, rng, n_commits=6, t0=1700000000, salt=b"", paths=None,
-                merges=True, tags=True, gitlinks=False, big=False):
+                merges=True, tags=True, gitlinks=False, big=False,
+                octopus=0.0):
     """Grow a random commit DAG in universe ``u``.
 
     Returns dict(commits=[ids in creation order], heads=[...], tags={name:id},
@@ -161,7 +162,15 @@ def gen_history(u, rng, n_commits=6, t0=1700000000, salt=b"", paths=None,
         return b
 
     for i in range(n_commits):
-        if commits and merges and len(heads) >= 2 and rng.random() < 0.25:
+        if octopus and len(commits) >= 3 and rng.random() < octopus:
+            # a merge of three or more arbitrary earlier commits
+            ps = rng.sample(commits, rng.randint(3, min(5, len(commits))))
+            files = dict(files_of[ps[0]])
+            for p in ps[1:]:
+                for path, v in files_of[p].items():
+                    if rng.random() < 0.3:
+                        files[path] = v
+        elif commits and merges and len(heads) >= 2 and rng.random() < 0.25:
             k = 2 if rng.random() < 0.8 else min(3, len(heads))
             ps = rng.sample(heads, k)
             files = dict(files_of[ps[0]])
